@@ -18,6 +18,7 @@ import (
 	"crypto/tls"
 
 	"verif/harness/ev"
+	"verif/harness/wire"
 )
 
 type fakeConn struct {
@@ -129,6 +130,10 @@ func TestC18(t *testing.T) {
 		if rapid.IntRange(0, 2).Draw(rt, "cancel") == 0 {
 			cancelAt = c18Grid[rapid.IntRange(0, len(c18Grid)-1).Draw(rt, "cancel_at")] + time.Duration(rapid.IntRange(0, 1).Draw(rt, "cancel_half"))*500*time.Microsecond
 		}
+		failWraps := rapid.SampledFrom([]int{0, 0, 1, 2, 3}).Draw(rt, "failure_error_wraps")
+		if cancelAt >= 0 && failWraps == 1 {
+			failWraps = 0 // the oracle tells a cancellation return by errors.Is(err, context.Canceled)
+		}
 		effMax, effDelay, effTimeout := maxc, delay, timeout
 		if effMax <= 0 {
 			effMax = 3
@@ -149,6 +154,17 @@ func TestC18(t *testing.T) {
 		sentinels := make([]error, len(bs))
 		for i := range sentinels {
 			sentinels[i] = fmt.Errorf("attempt %d failed", i)
+			// an attempt's own failure may wrap a context error of its own making (a proxy step
+			// with a sub-context, an inner timeout) while Dial's context is alive: it is a
+			// failed attempt like any other
+			switch failWraps {
+			case 1:
+				sentinels[i] = fmt.Errorf("attempt %d failed: proxy step: %w", i, context.Canceled)
+			case 2:
+				sentinels[i] = fmt.Errorf("attempt %d failed: inner budget: %w", i, context.DeadlineExceeded)
+			case 3:
+				sentinels[i] = fmt.Errorf("attempt %d failed: %w", i, wire.ErrTimeout)
+			}
 		}
 		rejected := make([]bool, len(bs))
 		leftBehind, leftSample, leftAt := 0, "", time.Duration(0)
